@@ -11,20 +11,21 @@
 
 namespace sim {
 
-template <typename T>
-class SimList
+// Impl: std::list<T>, or a list-like class offering the same members (eventpp::OrderedQueueList)
+template <typename T, typename Impl_>
+class SimListT
 {
 public:
-	using Impl = std::list<T>;
+	using Impl = Impl_;
 	using iterator = typename Impl::iterator;
 	using const_iterator = typename Impl::const_iterator;
 	using value_type = T;
 
-	SimList() {}
-	SimList(SimList && other) { both("ql.movector", other); impl = std::move(other.impl); }
-	SimList & operator = (SimList && other) { both("ql.moveassign", other); impl = std::move(other.impl); return *this; }
-	SimList(const SimList &) = delete;
-	SimList & operator = (const SimList &) = delete;
+	SimListT() {}
+	SimListT(SimListT && other) { both("ql.movector", other); impl = std::move(other.impl); }
+	SimListT & operator = (SimListT && other) { both("ql.moveassign", other); impl = std::move(other.impl); return *this; }
+	SimListT(const SimListT &) = delete;
+	SimListT & operator = (const SimListT &) = delete;
 
 	bool empty() const
 	{
@@ -54,21 +55,20 @@ public:
 	template <typename ...A>
 	void emplace_back(A && ...a) { one("ql.emplace", true); impl.emplace_back(std::forward<A>(a)...); }
 
-	void splice(const_iterator pos, SimList & other)
+	void splice(const_iterator pos, SimListT & other)
 	{
 		both("ql.splice", other);
 		impl.splice(pos, other.impl);
 	}
-	void splice(const_iterator pos, SimList & other, const_iterator it)
+	void splice(const_iterator pos, SimListT & other, const_iterator it)
 	{
 		both("ql.splice1", other);
 		if(other.impl.empty()) S().fail("container-precondition", "single-element splice from an empty list");
 		impl.splice(pos, other.impl, it);
 	}
 
-	void swap(SimList & other) { both("ql.swap", other); impl.swap(other.impl); }
+	void swap(SimListT & other) { both("ql.swap", other); impl.swap(other.impl); }
 
-	size_t size() const { return impl.size(); }
 	Impl & raw() { return impl; }
 	const Impl & raw() const { return impl; }
 
@@ -80,7 +80,7 @@ private:
 		s.point(tag);
 		s.access(this, write, tag);
 	}
-	void both(const char * tag, const SimList & other) const
+	void both(const char * tag, const SimListT & other) const
 	{
 		Sched & s = S();
 		if(!s.active()) return;
@@ -93,6 +93,8 @@ private:
 
 	Impl impl;
 };
+
+template <typename T> using SimList = SimListT<T, std::list<T> >;
 
 template <typename K, typename V, typename Impl_>
 class SimMapT
